@@ -10,14 +10,23 @@ package callsim
 import (
 	"bytes"
 	"context"
+	"crypto/ecdsa"
+	"crypto/elliptic"
+	crand "crypto/rand"
+	"crypto/tls"
+	"crypto/x509"
+	"crypto/x509/pkix"
 	"encoding/binary"
 	"encoding/json"
+	"encoding/pem"
 	"fmt"
 	"io"
+	"math/big"
 	"math/rand"
 	"net"
 	"os"
 	"os/exec"
+	"path/filepath"
 	"strconv"
 	"strings"
 	"sync"
@@ -50,8 +59,17 @@ type Rule struct {
 
 // ServerSpec is one fake server = one endpoint of the proxy = one adapter.
 type ServerSpec struct {
-	Kind  string `json:"kind"` // normal | refuse | blackhole | noread | closeOnAccept
+	Kind  string `json:"kind"` // normal | refuse | blackhole | noread | closeOnAccept | udp
 	Rules []Rule `json:"rules,omitempty"`
+	// Transport "ssl": the endpoint is an ssl endpoint. The first BadConns accepted connections are treated
+	// according to BadMode during the TLS handshake — "silent" (TCP accepted, never a ServerHello),
+	// "garbage" (bytes that are not TLS), "close" (closed after the ClientHello was read), "slow" (the
+	// handshake starts only after SlowMs) — all later ones get a proper handshake and are served by the
+	// rules. Kind "udp": the endpoint is a udp endpoint (rules echo | silent | delay only).
+	Transport string `json:"transport,omitempty"`
+	BadConns  int    `json:"bad_conns,omitempty"`
+	BadMode   string `json:"bad_mode,omitempty"`
+	SlowMs    int    `json:"slow_ms,omitempty"`
 	// requests of the callers with tag HoldFromTag..HoldToTag are answered after HoldMs (whatever their
 	// arrival ordinal: keep-alive pings are requests too and would shift ordinal rules)
 	HoldFromTag int `json:"hold_from_tag,omitempty"`
@@ -366,14 +384,54 @@ type prx struct{ s model.Servant }
 func (p *prx) SetServant(s model.Servant) { p.s = s }
 
 type runner struct {
-	sc   *Scenario
-	t0   time.Time
-	mu   sync.Mutex
-	res  *Result
-	nB   int
-	rng  *rand.Rand
-	stop chan struct{}
-	prxs []*prx
+	sc     *Scenario
+	t0     time.Time
+	mu     sync.Mutex
+	res    *Result
+	nB     int
+	rng    *rand.Rand
+	stop   chan struct{}
+	prxs   []*prx
+	srvTLS *tls.Config
+}
+
+// setupTLS creates a self-signed certificate for 127.0.0.1..16 and makes the client trust it through the
+// ordinary configuration file (/tars/application/client<ca>), read by the first NewCommunicator.
+func (r *runner) setupTLS() error {
+	priv, err := ecdsa.GenerateKey(elliptic.P256(), crand.Reader)
+	if err != nil {
+		return err
+	}
+	tmpl := &x509.Certificate{
+		SerialNumber: big.NewInt(9), Subject: pkix.Name{CommonName: "callsim"},
+		NotBefore: time.Now().Add(-time.Hour), NotAfter: time.Now().Add(24 * time.Hour),
+		KeyUsage: x509.KeyUsageDigitalSignature | x509.KeyUsageCertSign, IsCA: true, BasicConstraintsValid: true,
+		ExtKeyUsage: []x509.ExtKeyUsage{x509.ExtKeyUsageServerAuth},
+	}
+	for i := 1; i <= 16; i++ {
+		tmpl.IPAddresses = append(tmpl.IPAddresses, net.ParseIP(fmt.Sprintf("127.0.0.%d", i)))
+	}
+	der, err := x509.CreateCertificate(crand.Reader, tmpl, tmpl, &priv.PublicKey, priv)
+	if err != nil {
+		return err
+	}
+	r.srvTLS = &tls.Config{Certificates: []tls.Certificate{{Certificate: [][]byte{der}, PrivateKey: priv}}}
+	dir, err := os.MkdirTemp(".", "tls")
+	if err != nil {
+		return err
+	}
+	dir, _ = filepath.Abs(dir)
+	ca := filepath.Join(dir, "ca.pem")
+	if err := os.WriteFile(ca, pem.EncodeToMemory(&pem.Block{Type: "CERTIFICATE", Bytes: der}), 0o600); err != nil {
+		return err
+	}
+	cfg := "<tars>\n<application>\n<client>\nca=" + ca + "\n</client>\n<server>\nlogLevel=ERROR\n</server>\n</application>\n</tars>\n"
+	cf := filepath.Join(dir, "client.conf")
+	if err := os.WriteFile(cf, []byte(cfg), 0o600); err != nil {
+		return err
+	}
+	tars.ServerConfigPath = cf
+	return nil
 }
 
 func (r *runner) us() int64 { return time.Since(r.t0).Microseconds() }
@@ -435,6 +493,8 @@ type fakeServer struct {
 	batch map[int][]pendingReq // rule index → collected requests
 	timer map[int]bool
 	conns []net.Conn
+	nconn int
+	pc    net.PacketConn
 }
 
 // blackhole: a listening socket with backlog 0 that never accepts; once its accept queue is full the
@@ -502,6 +562,16 @@ func (r *runner) startServer(idx int, spec ServerSpec) (*fakeServer, error) {
 		fs.port, fs.bh = port, closeFn
 		return fs, nil
 	}
+	if spec.Kind == "udp" {
+		pc, err := net.ListenPacket("udp", fs.host+":0")
+		if err != nil {
+			return nil, err
+		}
+		fs.pc = pc
+		fs.port = pc.LocalAddr().(*net.UDPAddr).Port
+		go fs.serveUDP()
+		return fs, nil
+	}
 	l, err := net.Listen("tcp", fs.host+":0")
 	if err != nil {
 		return nil, err
@@ -510,6 +580,95 @@ func (r *runner) startServer(idx int, spec ServerSpec) (*fakeServer, error) {
 	fs.port = l.Addr().(*net.TCPAddr).Port
 	go fs.acceptLoop()
 	return fs, nil
+}
+
+// serveUDP: one datagram = one frame; rules echo | silent | delay by arrival ordinal.
+func (fs *fakeServer) serveUDP() {
+	buf := make([]byte, 65536)
+	for {
+		n, addr, err := fs.pc.ReadFrom(buf)
+		if err != nil {
+			return
+		}
+		if n < 4 {
+			continue
+		}
+		req := &requestf.RequestPacket{}
+		if err := req.ReadFrom(codec.NewReader(append([]byte{}, buf[4:n]...))); err != nil {
+			continue
+		}
+		payload := fromInt8(req.SBuffer)
+		tag := parseTag(payload, "c:")
+		fs.mu.Lock()
+		ord := fs.ord
+		fs.ord++
+		fs.mu.Unlock()
+		fs.r.mu.Lock()
+		fs.r.res.Reqs = append(fs.r.res.Reqs, ReqSeen{Server: fs.idx, Ord: ord, ID: req.IRequestId, Type: req.CPacketType, Tag: tag, AtUs: fs.r.us()})
+		fs.r.ev(fmt.Sprintf("Q.%d.%d.%d", fs.idx, req.IRequestId, tag))
+		fs.r.mu.Unlock()
+		if req.CPacketType == 1 {
+			continue
+		}
+		keep := payload
+		if len(keep) > 48 {
+			keep = keep[:48]
+		}
+		answer := func() {
+			fs.r.mu.Lock()
+			fs.r.res.Sent = append(fs.r.res.Sent, Sent{Server: fs.idx, Kind: "echo", ID: req.IRequestId, Body: tag, AtUs: fs.r.us()})
+			fs.r.ev(fmt.Sprintf("E.%d.%d.0.%d", fs.idx, req.IRequestId, tag))
+			fs.r.mu.Unlock()
+			fs.pc.WriteTo(ResponseFrame(req.IRequestId, 0, append([]byte(fmt.Sprintf("r:%d:", req.IRequestId)), keep...)), addr)
+		}
+		_, ru := fs.ruleFor(ord)
+		switch ru.Mode {
+		case "echo", "":
+			answer()
+		case "delay":
+			d := ru.DelayMs
+			go func() {
+				select {
+				case <-time.After(time.Duration(d) * time.Millisecond):
+					answer()
+				case <-fs.r.stop:
+				}
+			}()
+		}
+	}
+}
+
+// tlsAccept treats one accepted connection of an ssl endpoint (see ServerSpec.Transport).
+func (fs *fakeServer) tlsAccept(c net.Conn, nth int) {
+	if nth < fs.spec.BadConns {
+		switch fs.spec.BadMode {
+		case "silent": // never a ServerHello; the connection stays open
+			return
+		case "garbage":
+			c.Write([]byte("HTTP/1.1 400 Bad Request\r\n\r\nthis is not tls\r\n"))
+			return
+		case "close":
+			buf := make([]byte, 64)
+			c.SetReadDeadline(time.Now().Add(2 * time.Second))
+			c.Read(buf)
+			c.Close()
+			return
+		case "slow":
+			select {
+			case <-time.After(time.Duration(fs.spec.SlowMs) * time.Millisecond):
+			case <-fs.r.stop:
+				return
+			}
+		}
+	}
+	tc := tls.Server(c, fs.r.srvTLS)
+	tc.SetDeadline(time.Now().Add(5 * time.Second))
+	if err := tc.Handshake(); err != nil {
+		c.Close()
+		return
+	}
+	tc.SetDeadline(time.Time{})
+	fs.serve(tc)
 }
 
 func (fs *fakeServer) acceptLoop() {
@@ -521,6 +680,14 @@ func (fs *fakeServer) acceptLoop() {
 		fs.mu.Lock()
 		fs.conns = append(fs.conns, c)
 		fs.mu.Unlock()
+		if fs.spec.Transport == "ssl" {
+			fs.mu.Lock()
+			nth := fs.nconn
+			fs.nconn++
+			fs.mu.Unlock()
+			go fs.tlsAccept(c, nth)
+			continue
+		}
 		switch fs.spec.Kind {
 		case "closeOnAccept":
 			c.Close()
@@ -728,6 +895,9 @@ func (fs *fakeServer) close() {
 	if fs.bh != nil {
 		fs.bh()
 	}
+	if fs.pc != nil {
+		fs.pc.Close()
+	}
 	fs.mu.Lock()
 	for _, c := range fs.conns {
 		c.Close()
@@ -852,6 +1022,14 @@ func RunChild(sc *Scenario) *Result {
 		res.Error = "UndecodableBody decodes: choose another garbage body"
 		return res
 	}
+	for _, ss := range sc.Servers {
+		if ss.Transport == "ssl" && r.srvTLS == nil {
+			if err := r.setupTLS(); err != nil {
+				res.Error = "tls setup: " + err.Error()
+				return res
+			}
+		}
+	}
 	comm := tars.NewCommunicator()
 	if err := installFilters(sc.Filter); err != nil {
 		res.Error = err.Error()
@@ -892,7 +1070,13 @@ func RunChild(sc *Scenario) *Result {
 			return res
 		}
 		servers = append(servers, fs)
-		eps = append(eps, fmt.Sprintf("tcp -h %s -p %d -t 60000", fs.host, fs.port))
+		proto := "tcp"
+		if ss.Transport == "ssl" {
+			proto = "ssl"
+		} else if ss.Kind == "udp" {
+			proto = "udp"
+		}
+		eps = append(eps, fmt.Sprintf("%s -h %s -p %d -t 60000", proto, fs.host, fs.port))
 	}
 	defer func() {
 		close(r.stop)
